@@ -103,6 +103,7 @@ Engine::PluginRet Senpai::run(OomdContext& ctx) {
     // memory address could all be recycled upon cgroup recreation.
     auto id_opt = cgroup_ctx.id();
     if (!id_opt) {
+      ++resolvedIt;
       continue;
     }
     if (trackedIt == tracked_cgroups_.end() || *id_opt < trackedIt->first) {
